@@ -52,7 +52,18 @@ func loadKnown(prop string) []knownFinding {
 			}
 		}
 		k.Desc = strings.Join(rest, " ")
-		if k.Property == prop && k.ID != "" {
+		applies := k.Property == prop
+		for _, w := range rest {
+			// also=C01,C02: other properties whose harnesses exclude this finding's inputs by assumption
+			if strings.HasPrefix(w, "also=") {
+				for _, p := range strings.Split(w[len("also="):], ",") {
+					if p == prop {
+						applies = true
+					}
+				}
+			}
+		}
+		if applies && k.ID != "" {
 			out = append(out, k)
 		}
 	}
@@ -72,6 +83,7 @@ func startWorker(module string) (*workerProc, error) {
 	self, _ := os.Executable()
 	cmd := exec.Command(self, "worker", module)
 	cmd.Stderr = os.Stderr
+	cmd.Env = append(os.Environ(), "GOMAXPROCS=1")
 	in, _ := cmd.StdinPipe()
 	outp, _ := cmd.StdoutPipe()
 	if err := cmd.Start(); err != nil {
@@ -128,36 +140,94 @@ func (w *workerProc) run(job *Job, hardTimeout time.Duration) (*JobResult, bool)
 	}
 }
 
-// runJobs distributes jobs over worker processes (one pool per module).
+// runJobs distributes jobs over worker processes (one pool per module). A job that reports pending
+// subtrees (SplitAt) is split: the subtrees are re-queued as sub-jobs and merged into the root's result.
 func runJobs(jobs []*Job, nworkers int, progress bool) ([]*JobResult, error) {
 	results := make([]*JobResult, len(jobs))
-	byMod := map[string][]int{}
+	type item struct {
+		job *Job
+	}
+	var mu sync.Mutex
+	cond := sync.NewCond(&mu)
+	queues := map[string][]*Job{}
+	outstanding := 0
 	for i, j := range jobs {
 		j.ID = i
-		byMod[j.Module] = append(byMod[j.Module], i)
+		j.Root = i
+		queues[j.Module] = append(queues[j.Module], j)
+		outstanding++
 	}
 	var firstErr error
-	var mu sync.Mutex
 	var wg sync.WaitGroup
 	mods := []string{}
-	for m := range byMod {
+	for m := range queues {
 		mods = append(mods, m)
+		q := queues[m]
+		sort.SliceStable(q, func(a, b int) bool { return q[a].TimeoutS > q[b].TimeoutS })
 	}
 	sort.Strings(mods)
 	done := 0
+	merge := func(root int, r *JobResult) {
+		cur := results[root]
+		if cur == nil {
+			results[root] = r
+			return
+		}
+		cur.Paths += r.Paths
+		cur.Forks += r.Forks
+		cur.Queries += r.Queries
+		cur.SolverTimeS += r.SolverTimeS
+		cur.Unknown += r.Unknown
+		cur.CutThird += r.CutThird
+		cur.WallS += r.WallS
+		if r.Terms > cur.Terms {
+			cur.Terms = r.Terms
+		}
+		if cur.DecidedBy == nil {
+			cur.DecidedBy = map[string]int{}
+		}
+		for k, v := range r.DecidedBy {
+			cur.DecidedBy[k] += v
+		}
+		if cur.Ended == nil {
+			cur.Ended = map[string]int{}
+		}
+		for k, v := range r.Ended {
+			cur.Ended[k] += v
+		}
+		for k, v := range r.Inconclusive {
+			if cur.Inconclusive == nil {
+				cur.Inconclusive = map[string]int{}
+			}
+			cur.Inconclusive[k] += v
+		}
+		seen := map[string]bool{}
+		for _, v := range cur.Violations {
+			seen[v.Kind+"@"+v.Where+"#"+v.Label+"#"+v.Known] = true
+		}
+		for _, v := range r.Violations {
+			if !seen[v.Kind+"@"+v.Where+"#"+v.Label+"#"+v.Known] {
+				cur.Violations = append(cur.Violations, v)
+			}
+		}
+		for k, v := range r.Reached {
+			if cur.Reached == nil {
+				cur.Reached = map[string]*Witness{}
+			}
+			if cur.Reached[k] == nil {
+				cur.Reached[k] = v
+			}
+		}
+		cur.Funcs = unionSorted(cur.Funcs, r.Funcs)
+		cur.Stubs = unionSorted(cur.Stubs, r.Stubs)
+		cur.Assumes = unionSorted(cur.Assumes, r.Assumes)
+		if r.Error != "" && cur.Error == "" {
+			cur.Error = r.Error
+		}
+		cur.Complete = cur.Complete && r.Complete
+	}
 	for _, mod := range mods {
-		idxs := byMod[mod]
-		// longest jobs first
-		sort.SliceStable(idxs, func(a, b int) bool { return jobs[idxs[a]].TimeoutS > jobs[idxs[b]].TimeoutS })
-		queue := make(chan int, len(idxs))
-		for _, i := range idxs {
-			queue <- i
-		}
-		close(queue)
 		n := nworkers
-		if n > len(idxs) {
-			n = len(idxs)
-		}
 		for k := 0; k < n; k++ {
 			wg.Add(1)
 			go func(mod string) {
@@ -169,7 +239,19 @@ func runJobs(jobs []*Job, nworkers int, progress bool) ([]*JobResult, error) {
 						w.cmd.Wait()
 					}
 				}()
-				for i := range queue {
+				for {
+					mu.Lock()
+					for len(queues[mod]) == 0 && outstanding > 0 {
+						cond.Wait()
+					}
+					if len(queues[mod]) == 0 {
+						mu.Unlock()
+						return
+					}
+					job := queues[mod][0]
+					queues[mod] = queues[mod][1:]
+					mu.Unlock()
+					var res *JobResult
 					if w == nil {
 						var err error
 						w, err = startWorker(mod)
@@ -179,25 +261,48 @@ func runJobs(jobs []*Job, nworkers int, progress bool) ([]*JobResult, error) {
 								firstErr = err
 							}
 							mu.Unlock()
-							results[i] = &JobResult{ID: i, Harness: jobs[i].Harness, Module: mod, Params: jobs[i].Params, Error: "worker start: " + err.Error()}
 							w = nil
-							continue
+							res = &JobResult{ID: job.ID, Harness: job.Harness, Module: mod, Params: job.Params, Error: "worker start: " + err.Error()}
 						}
 					}
-					hard := time.Duration(jobs[i].TimeoutS+60) * time.Second
-					res, ok := w.run(jobs[i], hard)
-					if !ok {
-						w.kill()
-						w = nil
-						res = &JobResult{ID: i, Harness: jobs[i].Harness, Module: mod, Params: jobs[i].Params,
-							Inconclusive: map[string]int{"worker killed (hard timeout or crash)": 1}, Ended: map[string]int{}}
+					if res == nil {
+						hard := time.Duration(job.TimeoutS+60) * time.Second
+						var ok bool
+						res, ok = w.run(job, hard)
+						if !ok {
+							w.kill()
+							w = nil
+							res = &JobResult{ID: job.ID, Harness: job.Harness, Module: mod, Params: job.Params,
+								Inconclusive: map[string]int{"worker killed (hard timeout or crash)": 1}, Ended: map[string]int{}}
+						}
 					}
-					results[i] = res
 					mu.Lock()
+					if len(res.Pending) > 0 {
+						// split the pending subtrees into sub-jobs
+						groups := len(res.Pending)
+						if groups > 32 {
+							groups = 32
+						}
+						for g := 0; g < groups; g++ {
+							sub := *job
+							sub.Prefixes = nil
+							for k := g; k < len(res.Pending); k += groups {
+								sub.Prefixes = append(sub.Prefixes, res.Pending[k])
+							}
+							sub.SplitAt = job.SplitAt * 4
+							sj := sub
+							queues[mod] = append(queues[mod], &sj)
+							outstanding++
+						}
+						res.Pending = nil
+					}
+					merge(job.Root, res)
+					outstanding--
 					done++
 					if progress {
-						fmt.Fprintf(os.Stderr, "  [%d/%d] %s %v paths=%d q=%d wall=%.1fs viol=%d inconcl=%v %s\n", done, len(jobs), res.Harness, res.Params, res.Paths, res.Queries, res.WallS, len(res.Violations), res.Inconclusive, res.Error)
+						fmt.Fprintf(os.Stderr, "  [%d done, %d outstanding] %s %v paths=%d q=%d wall=%.1fs viol=%d inconcl=%v %s\n", done, outstanding, res.Harness, res.Params, res.Paths, res.Queries, res.WallS, len(res.Violations), res.Inconclusive, res.Error)
 					}
+					cond.Broadcast()
 					mu.Unlock()
 				}
 			}(mod)
@@ -205,6 +310,17 @@ func runJobs(jobs []*Job, nworkers int, progress bool) ([]*JobResult, error) {
 	}
 	wg.Wait()
 	return results, firstErr
+}
+
+func unionSorted(a, b []string) []string {
+	m := map[string]bool{}
+	for _, x := range a {
+		m[x] = true
+	}
+	for _, x := range b {
+		m[x] = true
+	}
+	return keysOf(m)
 }
 
 // ---------- native replay ----------
@@ -396,6 +512,9 @@ func runCheck(prop, tier string) int {
 	jobs := spec.jobs(tier)
 	for _, j := range jobs {
 		j.Known = knownIDs
+		if j.SplitAt == 0 {
+			j.SplitAt = 16
+		}
 	}
 	workDir := filepath.Join(verifRoot(), "work", prop)
 	os.RemoveAll(workDir)
